@@ -1011,3 +1011,87 @@ theorem errTree_code (e : E) (h : e.1 ≠ 0) : (errTree e).field? "code" = some 
 theorem errTree_raw (name : String) : errTree (0, name) = .obj [] := rfl
 
 end Gonuts.Model.Wire
+
+namespace Gonuts.Model.Wire
+open Gonuts.Model.Mint
+
+/-! ## Status codes -/
+
+theorem runHandler_status (s : WSess) (h : Handler) (p : Parsed) (op : Op) (r : Request) :
+    (runHandler s h p op r).2.1.status = 200 ∨ (runHandler s h p op r).2.1.status = 400 := by
+  unfold runHandler
+  by_cases hc : isCached h = true
+  · simp only [hc, if_true]
+    cases hg : s.cache.get r.key s.now with
+    | mk c1 found =>
+      cases found with
+      | some b => exact .inl rfl
+      | none =>
+        simp only
+        cases hx : execOp p op (armLn s.mint r.lnFail) with
+        | mk m1 res =>
+          cases res with
+          | error e => exact .inr rfl
+          | ok t => simp only; split <;> exact .inl rfl
+  · simp only [hc]
+    cases hx : execOp p op (armLn s.mint r.lnFail) with
+    | mk m1 res =>
+      cases res with
+      | error e => exact .inr rfl
+      | ok t => exact .inl rfl
+
+theorem handleKeys_status (s : WSess) (key : String) (ks : Option Nat) :
+    (handleKeys s key ks).2.1.status = 200 ∨ (handleKeys s key ks).2.1.status = 400 := by
+  unfold handleKeys
+  cases hg : s.cache.get key s.now with
+  | mk c1 found =>
+    cases found with
+    | some b => exact .inl rfl
+    | none => cases ks with
+      | none => exact .inr rfl
+      | some i => exact .inl rfl
+
+theorem handleInfo_status (s : WSess) : (handleInfo s).2.1.status = 200 ∨ (handleInfo s).2.1.status = 400 := by
+  unfold handleInfo
+  cases s.mint.runPM (infoProg (cxOf s.mint)) [] with
+  | mk m1 res => cases res with
+    | error e => exact .inr rfl
+    | ok d => exact .inl rfl
+
+theorem mem_status_of_or {a : Nat} (h : a = 200 ∨ a = 400) : a ∈ [200, 400, 0] := by
+  rcases h with h | h <;> simp [h]
+
+theorem callOp_status (s : WSess) (h : Handler) (vars : List (String × String)) (r : Request) :
+    (callOp s h vars r).2.1.status ∈ [200, 400, 0] := by
+  unfold callOp
+  split
+  · simp [errResp]
+  · split
+    · simp [errResp]
+    · split
+      · simp
+      · exact mem_status_of_or (runHandler_status s h _ _ r)
+
+theorem handleX_status (s : WSess) (r : Request) : (handleX s r).2.1.status ∈ [200, 400, 301, 404, 405, 0] := by
+  unfold handleX
+  split
+  · simp
+  · cases hroute : route r.method r.segs with
+    | notFound => simp
+    | methodNotAllowed => simp
+    | found h vars =>
+      simp only
+      split
+      · simp
+      · unfold callHandler
+        split
+        · simp
+        · rcases handleKeys_status s activeKeysetKey (some s.mint.w.mem.active) with h' | h' <;> simp [h']
+        · simp [ok200]
+        · rcases handleKeys_status s (var? vars "id") (keysetOf s.mint.w.mem r.pathSym) with h' | h' <;> simp [h']
+        · rcases handleInfo_status s with h' | h' <;> simp [h']
+        · have := callOp_status s h vars r
+          simp only [List.mem_cons, List.mem_nil_iff, or_false] at this ⊢
+          rcases this with h' | h' | h' <;> simp [h']
+
+end Gonuts.Model.Wire
